@@ -248,7 +248,54 @@ def F18():
     return len(core) == n0, f"refused add ({err}) left the core with {len(core)} children (was {n0}); new assembly is a child={new in core}, in a lookup table={listed}"
 
 
-ALL = dict(F10=F10, F12=F12, F17=F17, F18=F18, F1=F1, F2=F2, F3=F3, F4=F4, F5=F5, F6=F6, F7=F7, F8=F8, F9=F9, F14=F14)
+def F19():
+    import math
+    from armi.reactor.tests.test_reactors import loadTestReactor
+    from armi.reactor import reactorParameters
+    from armi.nucDirectory import nuclideBases
+
+    o, r = loadTestReactor(inputFileName="smallestTestReactor/armiRunSmallest.yaml")
+    b = r.core.getFirstBlock()
+    c = next(x for x in b if x.getNumberDensity("U235") > 0)
+    c.setNumberDensity("FE", 0.01)
+    reactorParameters.makeParametersReadOnly(r)
+    out = []
+    n0 = c.getNumberDensity("U235")
+    try:
+        c.setNumberDensity("U235", 2 * n0)
+        res = "no refusal"
+    except RuntimeError:
+        res = "refused"
+    out.append(f"setNumberDensity {res}, U235 {n0:.3e} -> {c.getNumberDensity('U235'):.3e}")
+    bad = c.getNumberDensity("U235") != n0
+    o0 = list(b.p.orientation)
+    try:
+        b.rotate(math.pi / 3)
+        res = "no refusal"
+    except RuntimeError:
+        res = "refused"
+    out.append(f"rotate {res}, orientation {o0} -> {list(b.p.orientation)}")
+    bad = bad or list(b.p.orientation) != o0
+    o1 = list(b.p.orientation)
+    try:
+        b.setRotationNum(3)
+        res = "no refusal"
+    except RuntimeError:
+        res = "refused"
+    out.append(f"setRotationNum {res}, orientation {o1} -> {list(b.p.orientation)}")
+    bad = bad or list(b.p.orientation) != o1
+    had = "FE" in c.p.numberDensities
+    try:
+        b.expandElementalToIsotopics(nuclideBases.byName["FE"])
+        res = "no refusal"
+    except RuntimeError:
+        res = "refused"
+    out.append(f"expandElementalToIsotopics {res}, FE in numberDensities {had} -> {'FE' in c.p.numberDensities}")
+    bad = bad or (had and "FE" not in c.p.numberDensities)
+    return not bad, "read-only reactor: " + "; ".join(out)
+
+
+ALL = dict(F10=F10, F12=F12, F17=F17, F18=F18, F19=F19, F1=F1, F2=F2, F3=F3, F4=F4, F5=F5, F6=F6, F7=F7, F8=F8, F9=F9, F14=F14)
 
 if __name__ == "__main__":
     sys.path.insert(0, os.getcwd())
